@@ -145,6 +145,11 @@ func (r *remoteReplicator) IsReady() bool {
 		if r.isSuspend.CompareAndSwap(false, true) {
 			r.statistics.FollowerOffline.Incr()
 			r.state.Store(&state{state: models.ReplicatorFailureState, errMsg: "follower node is offline"})
+			// NOTE: the online event may have been handled after the check of live node and before suspend was
+			// marked, it found nothing to notify and no other event will come, so check live node again.
+			if _, online := r.stateMgr.GetLiveNode(follower); online && r.isSuspend.CompareAndSwap(true, false) {
+				return r.IsReady()
+			}
 			<-r.suspend // wait follower node online
 		}
 		return r.IsReady() // check replicator is ready now
